@@ -4,7 +4,6 @@ import (
 	"go/ast"
 	"go/token"
 	"go/types"
-	"sort"
 	"strings"
 
 	"golang.org/x/tools/go/cfg"
@@ -97,24 +96,21 @@ func runC16(c *Ctx) {
 				return true
 			}
 			n++
-			_, okFn := allowedSchemaNameReaders[fi.Name]
-			c.Check("R16a", fi.Name+"|reads Schema.Name", se.Pos(), okFn, "%s is reachable from PlanChanges and reads Schema.Name outside the qualifier-aware sinks: the schema's own name can reach statement text regardless of the requested qualifier", fi.Name)
+			reason, listed := allowedSchemaNameReaders[fi.Name]
+			if listed && !qualifierSinks[fi.Name] {
+				c.Check("R16a", fi.Name+"|reads Schema.Name", se.Pos(), true, "%s", reason)
+			}
 			return true
 		})
-		if n > 0 && qualifierSinks[fi.Name] {
+		// every other reader (the known sinks, or a helper extracted from one) must be qualifier-aware itself:
+		// the read is reachable only after establishing that no qualifier was requested
+		if _, listed := allowedSchemaNameReaders[fi.Name]; n > 0 && (!listed || qualifierSinks[fi.Name]) {
 			seenSinks[fi.Name] = true
 			checkQualifierFirst(c, fi)
 		}
 	})
-	var missing []string
-	for s := range qualifierSinks {
-		if !seenSinks[s] {
-			missing = append(missing, s)
-		}
-	}
-	sort.Strings(missing)
-	for _, s := range missing {
-		c.Unresolved("R16a", "qualifier-aware sink "+s+" (not reachable from PlanChanges or no longer reads Schema.Name)")
+	if len(seenSinks) == 0 {
+		c.Unresolved("R16a", "qualifier-aware readers of Schema.Name reachable from PlanChanges (none found)")
 	}
 	// sqlite planner never reads the schema name
 	c.AllFuncs(false, func(fi *FuncInfo) {
